@@ -1450,6 +1450,8 @@ func main() {
 		replay()
 	case "index":
 		streamIndex()
+	case "lindex":
+		streamLIndex()
 	case "e2x":
 		streamE2(int(seed), n)
 	case "small":
